@@ -105,12 +105,16 @@ def main(argv: list[str]) -> int:
                 rc, out = run_check(dst, pid)
                 viol = [l for l in out.splitlines() if l.startswith("  ") and "@" in l][:2]
                 verdict = {1: "DETECTED", 0: "MISSED"}.get(rc, f"HARNESS-ERROR rc={rc}")
+                if verdict == "MISSED" and how[0] == "diff":
+                    meta = json.load(open(os.path.join(os.path.dirname(how[1]), "meta.json")))
+                    if meta.get("neutralised"):
+                        verdict = "NEUTRALISED"     # no longer a violation on the repaired tree (see meta.json)
                 line += f" {pid} {verdict} in {time.time() - t0:.0f}s {viol if rc == 1 else out[-300:] if rc not in (0, 1) else ''}"
                 results.append((name, pid, verdict))
             print(line, flush=True)
         finally:
             shutil.rmtree(dst, ignore_errors=True)
-    missed = [r for r in results if r[-1] != "DETECTED"]
+    missed = [r for r in results if r[-1] not in ("DETECTED", "NEUTRALISED")]
     print(f"{len(results)} runs, {len(missed)} not detected: {missed}")
     return 0 if not missed else 1
 
